@@ -29,3 +29,27 @@ Definition rec_ticks (g i : Z) (out : wire) : list (Z * Z) :=
                      | 12 :: g' :: i' :: t :: _ :: _ :: _ :: _ :: m :: v :: _ =>
                          if (g' =? g) && (i' =? i) && (m =? 1) then [(t, v)] else []
                      | _ => [] end) out.
+
+(* a program without try_except: source x (ticks at 3 and 5), the body [x+1] inlined (node 1) and nested at
+   depth 2 (node 3 -> graph 1 -> graph 2), each followed by a recorder (corpus/nest/kf_phantom_tick_depth2.case) *)
+Definition nest2_case : wire :=
+  [[1; 1; 8];
+   [2; 0; 0; 0; 1; 0; 1; 0; 0];
+   [3; 0; 0; (-1); 1; 2; 0];
+   [3; 0; 0; 0; 6; 5; 0];
+   [3; 0; 0; 0; 1; 2; 0];
+   [3; 0; 0; 1; 6; 7; 0];
+   [2; 0; 1; 0; 0; 0; 1; 1; 0; 0; 0; 1; 1];
+   [3; 0; 1; (-2); 6; 1; 0];
+   [3; 0; 1; 0; 0; 0; 0];
+   [2; 0; 2; 0; 0; 0; 0; 1; 1; 1; 0; 1; 0];
+   [2; 0; 3; 1; 0; 0; 1; 1; 0; 0; 0; 1; 0];
+   [5; 0; 3; 1; 0; 1; 0; 0; 0];
+   [2; 1; 0; 1; 0; 0; 1; 1; 0; (-1); 0; 1; 0];
+   [5; 1; 0; 2; 0; 1; 0; 0; 0];
+   [2; 2; 0; 0; 0; 0; 1; 1; 0; (-1); 0; 1; 1];
+   [3; 2; 0; (-2); 6; 1; 0];
+   [3; 2; 0; 0; 0; 0; 0];
+   [2; 0; 4; 0; 0; 0; 0; 1; 1; 3; 0; 1; 0];
+   [7; 0; 0; 2];
+   [7; 0; 0; 4]].
